@@ -341,6 +341,8 @@ func checkC07(c *Ctx, r *Report) {
 	percallRule(c, r, "C07-percall")
 	mirrorRule(c, r, "C07-mirror")
 	codeWidthRule(c, r, newProver(c), "C07-codewidth")
+	lengthAgreeRule(c, r, "C07-length")
+	noSharedStateRule(c, r, "C07-shared")
 	r.NotCov = append(r.NotCov, "tree update/rebuild arithmetic, match selection, bit packing, end-of-stream padding: value properties of run-time data")
 	_ = fmt.Sprint
 }
